@@ -354,21 +354,28 @@ fn compile_constants(
             {
                 let const_decl = engines.de().get_constant(decl_id);
                 let call_path = const_decl.call_path.clone();
-                let res = compile_const_decl(
-                    &mut LookupEnv {
-                        engines,
-                        context,
-                        md_mgr,
-                        module,
-                        module_ns: Some(module_ns),
-                        function_compiler: None,
-                        lookup: compile_const_decl,
-                    },
-                    &call_path,
-                    &Some((*const_decl).clone()),
-                );
+                let mut eval = || {
+                    compile_const_decl(
+                        &mut LookupEnv {
+                            engines,
+                            context,
+                            md_mgr,
+                            module,
+                            module_ns: Some(module_ns),
+                            function_compiler: None,
+                            lookup: compile_const_decl,
+                        },
+                        &call_path,
+                        &Some((*const_decl).clone()),
+                    )
+                };
+                #[cfg(not(fuellabs_sway_verif))]
+                let res = eval();
                 #[cfg(fuellabs_sway_verif)]
-                let res = verif_const_decl(res, context, &call_path, &mut verif_first_err);
+                let res = {
+                    let caught = std::panic::catch_unwind(std::panic::AssertUnwindSafe(&mut eval));
+                    verif_const_decl(caught, context, &call_path, &mut verif_first_err)
+                };
                 res?;
             }
         }
@@ -387,22 +394,44 @@ fn compile_constants(
 }
 
 /// Verification hook H8. When `SWAY_VERIF_CONST_TRACE` names a file, one JSON line is appended to
-/// it per module-level constant declaration (`name`, `ok`, the evaluated `val`), and a declaration
-/// whose initializer cannot be evaluated no longer stops the loop in `compile_constants`: the
-/// first such error is returned after every declaration of the module was tried.
+/// it per module-level constant declaration (`name`, `ok`, `panic`, the evaluated `val`), and a
+/// declaration whose initializer cannot be evaluated (or whose evaluation panics) no longer stops
+/// the loop in `compile_constants`: the first such error is returned after every declaration of
+/// the module was tried. Without the variable the result (or the panic) is passed through.
 #[cfg(fuellabs_sway_verif)]
 fn verif_const_decl(
-    res: Result<Option<Value>, CompileError>,
+    caught: std::thread::Result<Result<Option<Value>, CompileError>>,
     context: &Context,
     call_path: &crate::language::CallPath,
     first_err: &mut Option<CompileError>,
 ) -> Result<Option<Value>, CompileError> {
     use std::io::Write;
     let Some(path) = std::env::var_os("SWAY_VERIF_CONST_TRACE").filter(|p| !p.is_empty()) else {
-        return res;
+        return match caught {
+            Ok(res) => res,
+            Err(payload) => std::panic::resume_unwind(payload),
+        };
     };
-    let val = match &res {
-        Ok(Some(v)) => match v.get_constant(context).map(|c| &c.get_content(context).value) {
+    let (res, panicked) = match caught {
+        Ok(res) => (res, None),
+        Err(payload) => {
+            let msg = payload
+                .downcast_ref::<String>()
+                .cloned()
+                .or_else(|| payload.downcast_ref::<&str>().map(|s| s.to_string()))
+                .unwrap_or_else(|| "panic".to_string());
+            (
+                Err(CompileError::Internal(
+                    "panic while evaluating a const declaration",
+                    call_path.suffix.span(),
+                )),
+                Some(msg),
+            )
+        }
+    };
+    let val = match (&res, &panicked) {
+        (_, Some(msg)) => sway_utils::verif::esc(msg).chars().take(200).collect(),
+        (Ok(Some(v)), _) => match v.get_constant(context).map(|c| &c.get_content(context).value) {
             Some(sway_ir::ConstantValue::Uint(n)) => n.to_string(),
             Some(sway_ir::ConstantValue::Bool(b)) => b.to_string(),
             Some(sway_ir::ConstantValue::U256(n)) | Some(sway_ir::ConstantValue::B256(n)) => {
@@ -411,8 +440,11 @@ fn verif_const_decl(
             Some(other) => sway_utils::verif::esc(&format!("{other:?}")),
             None => "non-constant".to_string(),
         },
-        Ok(None) => "none".to_string(),
-        Err(e) => sway_utils::verif::esc(&format!("{e:?}")).chars().take(160).collect(),
+        (Ok(None), _) => "none".to_string(),
+        (Err(e), _) => sway_utils::verif::esc(&format!("{e:?}"))
+            .chars()
+            .take(160)
+            .collect(),
     };
     if let Ok(mut f) = std::fs::OpenOptions::new()
         .create(true)
@@ -421,9 +453,10 @@ fn verif_const_decl(
     {
         let _ = writeln!(
             f,
-            "{{\"ev\":\"ConstDecl\",\"name\":\"{}\",\"ok\":{},\"val\":\"{}\"}}",
+            "{{\"ev\":\"ConstDecl\",\"name\":\"{}\",\"ok\":{},\"panic\":{},\"val\":\"{}\"}}",
             sway_utils::verif::esc(call_path.suffix.as_str()),
             res.is_ok(),
+            panicked.is_some(),
             val
         );
     }
